@@ -12,7 +12,7 @@ META = {
              'descriptor'),
     'required_obs': {'quick': ['frame-checked', 'c08-cast', 'c08-width1-2d', 'c08-element-limit>dimension',
                                'c08-user-dimension', 'c08-user-el-larger', 'c08-inconsistent-tried', 'c08-multi-frame',
-                               'c08-shared-channel', 'c08-channel-in-no-frame', 'c08-struct-aligned', 'c08-struct-view', 'c08-dataset-name-overlap', 'c08-same-name-twice-in-frame']},
+                               'c08-shared-channel', 'c08-channel-in-no-frame', 'c08-struct-aligned', 'c08-struct-view', 'c08-dataset-name-overlap', 'c08-same-name-twice-in-frame', 'c08-channel-of-another-logical-file']},
     'assumptions': ['an inconsistent user-supplied dimension / element limit may be rejected; only successful writes '
                     'are constrained'],
 }
@@ -29,6 +29,9 @@ def cases(tier, seed):
     # a frame listing two channels of one name (copy numbers 0, 1), or one channel twice: refused, or descriptors and rows agree
     for k in range(30 if tier == 'quick' else 600):
         yield {'stratum': 'same-name-twice-in-frame', 'index': k, 'kind': 'dup'}
+    # two logical files; a frame of one lists a channel object of the other: refused, or descriptors and rows agree
+    for k in range(30 if tier == 'quick' else 600):
+        yield {'stratum': 'channel-of-another-logical-file', 'index': k, 'kind': 'foreign'}
     i = 0
     for dt in gen.DTYPES:
         for cast in gen.DTYPES:
@@ -91,6 +94,30 @@ def run_case(case):
         classes = ['dup:' + mode]
         inconsistent = True
         bump('c08-same-name-twice-in-frame')
+    elif case['kind'] == 'foreign':
+        n = r.choice([3, 5])
+        sp = gen.base_spec(r.choice([128, 8192]), lfs=[{'fh_id': 'LF-A'}, {'fh_id': 'LF-B'}])
+        ops = sp['ops']
+        dts = [r.choice(['float64', 'float32', 'uint16', 'int32']) for _ in range(4)]
+        ops.append(gen.origin_op('ORIGIN-A', lf=0, fsn=1)); ops[-1]['set_name'] = 'A'
+        ops.append(gen.channel_op('DEPTH', gen.dtstr(dts[0], '<'), (n,), lf=0, fill={'kind': 'pos', 'tag': 1})); ops[-1]['set_name'] = 'A'
+        ops.append(gen.channel_op('GR', gen.dtstr(dts[1], '<'), (n, r.choice([1, 2, 3])) if r.random() < 0.5 else (n,), lf=0,
+                                  fill={'kind': 'pos', 'tag': 2})); ops[-1]['set_name'] = 'A'
+        ops.append(gen.frame_op('MAIN', [1, 2], lf=0)); ops[-1]['set_name'] = 'A'
+        ops.append(gen.origin_op('ORIGIN-B', lf=1, fsn=2)); ops[-1]['set_name'] = 'B'
+        ops.append(gen.channel_op('TIME', gen.dtstr(dts[2], '<'), (n,), lf=1, fill={'kind': 'pos', 'tag': 3})); ops[-1]['set_name'] = 'B'
+        refs = [5, 2]               # own TIME + logical file A's GR
+        if r.random() < 0.5:
+            # ... and a channel of its own with the same name as the foreign one, other dtype
+            ops.append(gen.channel_op('GR', gen.dtstr(dts[3], '<'), (n,), lf=1, fill={'kind': 'pos', 'tag': 4})); ops[-1]['set_name'] = 'B'
+            ops[-1]['dataset_name'] = 'GR_B'
+            if r.random() < 0.5:
+                refs.append(len(ops) - 1)
+        ops.append(gen.frame_op('MAIN', refs, lf=1)); ops[-1]['set_name'] = 'B'
+        sp['write'] = {'source': r.choice(['dict', 'dict', 'inline']), 'output_chunk_size': 2 ** 16}
+        classes = ['foreign-channel']
+        inconsistent = True
+        bump('c08-channel-of-another-logical-file')
     elif case['kind'] == 'fastpath':
         sp = gen.fastpath_spec(r)
         classes = ['struct-' + (sp['write'].get('struct_variant') or 'packed')]
